@@ -16,7 +16,7 @@ SPACE = {
     'chain': ['F80', 'F80_E_F60', 'F40_U_F30', 'RF80', 'F200', 'E_F100_E', 'F0.5', 'Fneg70', 'Fnz90_E_Fneg40'],
     'roadm': ['library', 'detailed_xt'],
     'eq': ['test', 'example', 'openroadm5'],
-    'sim': ['default', 'raman_gn', 'raman_ggn_approx3', 'ggn_sep', 'ggn_approx_all', 'raman_numerical'],
+    'sim': ['default', 'raman_gn', 'raman_ggn_approx3', 'ggn_sep', 'ggn_approx_all', 'raman_numerical', 'ggn_approx_inner'],
     'mode': ['power', 'gain'],
     'policy': ['pch', 'psd', 'psw'],
     'spectrum': ['uniform', 'two_mixed', 'five_mixed', 'edges', 'hot', 'one', 'steep'],
@@ -32,6 +32,8 @@ SIMS = {
                 'nli_params': {'method': 'ggn_spectrally_separated', 'dispersion_tolerance': 1, 'phase_shift_tolerance': 0.1,
                                'computed_number_of_channels': 2}},
     'ggn_approx_all': {'nli_params': {'method': 'ggn_approx'}},
+    # channels under test in the middle of the comb only: the others get their NLI from the nearest computed ones
+    'ggn_approx_inner': {'nli_params': {'method': 'ggn_approx', 'computed_channels': [5, 6, 7]}},
     'raman_numerical': {'raman_params': {'flag': True, 'method': 'numerical', 'result_spatial_resolution': 10e3,
                                          'solver_spatial_resolution': 500.0}},
 }
@@ -285,7 +287,9 @@ def run_case(case):
 
 
 def main(rep, tier, seed):
-    sp = engine.Space(SPACE, bases=[{}, {'chain': 'RF80', 'eq': 'example', 'sim': 'raman_gn', 'spectrum': 'five_mixed'},
+    sp = engine.Space(SPACE, constraint=lambda x: not (x['sim'] == 'ggn_approx_inner' and
+                                                       x['spectrum'] not in ('uniform', 'hot', 'steep')),
+                      bases=[{}, {'chain': 'RF80', 'eq': 'example', 'sim': 'raman_gn', 'spectrum': 'five_mixed'},
                                     {'graph': 'P3', 'chain': 'E_F100_E', 'eq': 'openroadm5', 'spectrum': 'hot'},
                                     {'graph': 'TRI', 'chain': 'F40_U_F30', 'mode': 'gain', 'policy': 'psd', 'spectrum': 'two_mixed'}])
     if tier == 'quick':
